@@ -86,6 +86,9 @@ func loadWorld(repo, stubsDir string) (*World, error) {
 		if pkg == nil {
 			pkg = pkgByShort["dig"]
 		}
+		for n, ls := range sf.LocSets {
+			w.locSets[n] = ls
+		}
 		for _, g := range sf.Ghosts {
 			parts := strings.Fields(g)
 			gt, sort := w.resolveTypeSafe(pkg, parts[1])
@@ -144,7 +147,7 @@ func (w *World) resolveTypeSafe(pkg *types.Package, text string) (gt types.Type,
 }
 
 func (w *World) scratch(pkg *types.Package) (*State, *Env) {
-	x := &Exec{w: w, trivial: map[string]int{}, ghostVars: w.ghostVars, notes: map[string]bool{}, usedSpecs: map[string]bool{},
+	x := &Exec{w: w, trivial: map[string]int{}, trivialMeta: map[string]*Goal{}, ghostVars: w.ghostVars, notes: map[string]bool{}, usedSpecs: map[string]bool{},
 		loops: map[*ssa.Function]*loopAnalysis{}, inlined: map[string]bool{}}
 	for _, sp := range w.pkgs {
 		if sp.Pkg == pkg {
